@@ -6,10 +6,12 @@ Local Open Scope N_scope.
 
 (* hashbrown's own bookkeeping: growth_left + items never exceeds the bucket capacity; the
    element filed under k has key k *)
-Definition hb_ok (t : hb) : Prop :=
+(* E = size_of::<(K, V)>(): an allocated table's layout fits in isize::MAX *)
+Definition hb_ok (Esz : N) (t : hb) : Prop :=
   hgl t + hn t <= bcap (hB t) /\
   hn t = N.of_nat (size (hel t)) /\
-  (forall k e, hel t !! k = Some e -> ek e = k).
+  (forall k e, hel t !! k = Some e -> ek e = k) /\
+  0 < hB t /\ (hB t = 1 \/ layout_ok Esz (hB t) = true).
 
 (* I-iter, I-disj, I-head for a pending resize *)
 Definition old_ok (R : N) (t : hb) (o : old) : Prop :=
@@ -19,8 +21,8 @@ Definition old_ok (R : N) (t : hb) (o : old) : Prop :=
   (forall e, e ∈ orem o -> hel t !! ek e = None) /\
   need (olen o) R <= hgl t.
 
-Definition Inv (R : N) (r : rt) : Prop :=
-  0 < R /\ hb_ok (main r) /\ match lo r with None => True | Some o => old_ok R (main r) o end.
+Definition Inv (R Esz : N) (r : rt) : Prop :=
+  0 < R /\ hb_ok Esz (main r) /\ match lo r with None => True | Some o => old_ok R (main r) o end.
 
 (* ------------------------------------------------------------------ lists of elements *)
 
@@ -154,29 +156,52 @@ Proof.
   cbn. lia.
 Qed.
 
-Lemma hb_ok_new : hb_ok hb_new.
+Lemma hb_ok_new Esz : hb_ok Esz hb_new.
 Proof.
-  split; [|split].
+  split; [|split; [|split; [|split]]].
   - unfold hb_new. cbn [hgl hB hn]. change (bcap 1) with 0. lia.
   - reflexivity.
   - intros k e H. cbn in H. rewrite lookup_empty in H. discriminate.
+  - cbn. lia.
+  - left. reflexivity.
 Qed.
 
-Lemma hb_ok_empty B : hb_ok (hb_empty B).
+Lemma hb_ok_empty Esz B : 0 < B -> (B = 1 \/ layout_ok Esz B = true) -> hb_ok Esz (hb_empty B).
 Proof.
-  split; [|split].
+  intros HB HL. split; [|split; [|split; [|split]]].
   - unfold hb_empty. cbn [hgl hB hn]. lia.
   - reflexivity.
   - intros k e H. cbn in H. rewrite lookup_empty in H. discriminate.
+  - exact HB.
+  - exact HL.
 Qed.
 
-Lemma Inv_new R : 0 < R -> Inv R rt_new.
+Lemma bcap_le B : bcap B <= B.
+Proof.
+  unfold bcap. destruct (N.leb_spec B 8); [lia|].
+  pose proof (N.mul_div_le B 8 ltac:(lia)). lia.
+Qed.
+
+Lemma layout_ok_bound Esz B : layout_ok Esz B = true -> B <= isize_max.
+Proof. unfold layout_ok. intros H. apply N.leb_le in H. lia. Qed.
+
+Lemma layout_ok_mono Esz B B' : B' <= B -> layout_ok Esz B = true -> layout_ok Esz B' = true.
+Proof. unfold layout_ok. intros Hle H. apply N.leb_le in H. apply N.leb_le. nia. Qed.
+
+Lemma hb_ok_gl_bound Esz t : hb_ok Esz t -> hgl t <= isize_max /\ hn t <= isize_max.
+Proof.
+  intros (H1 & _ & _ & _ & H4). pose proof (bcap_le (hB t)).
+  assert (hB t <= isize_max) by (destruct H4 as [->|H4]; [unfold isize_max; lia|apply (layout_ok_bound Esz); exact H4]).
+  lia.
+Qed.
+
+Lemma Inv_new R Esz : 0 < R -> Inv R Esz rt_new.
 Proof. intros H. split; [exact H|]. split; [apply hb_ok_new|exact I]. Qed.
 
 
 (* abs with a pending resize, as a lookup *)
-Lemma rt_abs_lookup R r k :
-  Inv R r ->
+Lemma rt_abs_lookup R Esz r k :
+  Inv R Esz r ->
   rt_abs r !! k = match hel (main r) !! k with
                   | Some e => Some e
                   | None => match lo r with Some o => lookup_list k (orem o) | None => None end
@@ -190,7 +215,7 @@ Proof.
     + apply lookup_empty.
 Qed.
 
-Lemma Inv_len R r : Inv R r -> N.of_nat (size (rt_abs r)) = rt_len r.
+Lemma Inv_len R Esz r : Inv R Esz r -> N.of_nat (size (rt_abs r)) = rt_len r.
 Proof.
   intros (_ & (_ & Hn & _) & Ho). unfold rt_abs, rt_len, hlen. destruct (lo r) as [o|].
   - destruct Ho as (_ & Hc & Hnd & Hdis & _).
